@@ -805,6 +805,46 @@ where
 
 
 // ---------------------------------------------------------------------------------------------
+// bigfmt <dt> <level> <order> <gcds> <v*len,v*len,...>: one chunk given as runs (too long for a request line), compressed
+// through the chunk API; answers the bytes and a digest of the input (h = h*31 + pattern + 1 mod 2^61-1) so that an
+// independent decoder can be compared without shipping the numbers
+//   -> ok n=<n> digest=<d> bytes=<hex>
+
+fn cmd_bigfmt<T: Ty>(args: &[&str]) -> String
+where
+  T::Signed: Ty,
+{
+  let level: usize = args[0].parse().unwrap();
+  let order: usize = args[1].parse().unwrap();
+  let gcds = args[2] == "1";
+  let mut nums: Vec<T> = Vec::new();
+  let mut h: u128 = 0;
+  const M: u128 = (1u128 << 61) - 1;
+  for part in args[3].split(',') {
+    let mut it = part.split('*');
+    let v = u128::from_str_radix(it.next().unwrap(), 16).unwrap();
+    let len: usize = it.next().unwrap_or("1").parse().unwrap();
+    for _ in 0..len {
+      nums.push(T::from_pat(v));
+      h = (h * 31 + v + 1) % M;
+    }
+  }
+  let config = CompressorConfig::default()
+    .with_compression_level(level)
+    .with_delta_encoding_order(order)
+    .with_use_gcds(gcds);
+  let mut c = Compressor::<T>::from_config(config);
+  if let Err(e) = c.header() {
+    return format!("err {}", kind_str(&e));
+  }
+  if let Err(e) = c.chunk(&nums) {
+    return format!("err {}", kind_str(&e));
+  }
+  c.footer().unwrap();
+  format!("ok n={} digest={} bytes={}", nums.len(), h, bytes_to_hex(&c.drain_bytes()))
+}
+
+// ---------------------------------------------------------------------------------------------
 // bigauto <dt> <level> <kind> <n> <seed>: auto_compressor_config / auto_compress / auto_decompress on inputs too long
 // for a request line (more than DEFAULT_CHUNK_SIZE numbers: several chunks)
 //   -> ok order=<o> level=<l> rt=<0|1> len=<decoded length> n=<n> size=<bytes>
@@ -1061,6 +1101,7 @@ fn answer(line: &str) -> String {
       "mt" => dispatch!(toks[1], cmd_mt, &toks[2..]),
       "bigrt" => dispatch!(toks[1], cmd_bigrt, &toks[2..]),
       "bigauto" => dispatch!(toks[1], cmd_bigauto, &toks[2..]),
+      "bigfmt" => dispatch!(toks[1], cmd_bigfmt, &toks[2..]),
       "ts" => cmd_ts(&toks[1..]),
       "consts" => cmd_consts(),
       "floatfns" if toks.len() > 3 && toks[1] == "runlen" => runlen_public(toks[2].parse().unwrap(), toks[3].parse().unwrap()),
